@@ -192,6 +192,9 @@ RECURSIVE ProbeSet(_, _)
 ProbeSet(t, rich) ==
   CASE t.k \in IntKinds -> {ShowNum(x) : x \in NumProbeVals(t)} \cup (IF rich THEN IntLexical ELSE {})
     [] t.k = "decimal64" -> {ShowDec(x, t.fd) : x \in NumProbeVals(t)} \cup (IF rich THEN DecLexical(t.fd) ELSE {})
+                            \* values inside the ranges that are rejected only because of their number of fraction digits
+                            \cup UNION {{ShowDec(x, t.fd) \o <<53>>, ShowDec(x, t.fd) \o <<50, 53>>, ShowDec(x, t.fd) \o <<48, 48, 49>>} :
+                                         x \in {Zero, N("5")} \cup UNION {{t.rl[i].parts[j].lo : j \in 1..Len(t.rl[i].parts)} : i \in 1..Len(t.rl)}}
     [] t.k = "string" -> StrLenProbes(t, rich) \cup (IF t.pats # << >> \/ rich THEN AsciiProbes ELSE {<<ca, cb>>}) \cup (IF rich THEN MbProbes ELSE {})
                          \cup UNION {AnchorProbes(t.pats[i].re) : i \in 1..Len(t.pats)}
     [] t.k = "enumeration" -> RangeOf(t.enums) \cup {T("three"), << >>, T("One"), T("on"), T("onee"), T("0"), T(" one")}
@@ -621,6 +624,15 @@ DefProbeFam(r) ==
       vs == UNION {IF pre(i).ok THEN ProbeSet(pre(i).t, TRUE) ELSE {} : i \in 1..n}
   IN {[ch EXCEPT !.levels[i] = WithDef(@, v)] : i \in 1..n, v \in vs}
      \cup {[ch EXCEPT !.levels = <<WithDef(@[1], v)>> \o SubSeq(@, 2, n) \o <<Lv0>>] : v \in vs}
+\* ------------------------------------------------------------------ base-only substatements on a typedef reference (fam 12050)
+\* fraction-digits (smaller, equal, larger) on a reference to a decimal64 typedef, alone and together with a range or a
+\* default, in a typedef and in the leaf: the compile verdict is not judged, the value space may not grow
+FdRefFam ==
+  LET B(fd) == {<<[Rg(<<P2(c0, T("100"))>>) EXCEPT !.fd = fd]>>, <<[Lv0 EXCEPT !.fd = fd]>>, <<[Rg(<<P2(T("1.5"), T("2.5")), P2(T("3.0"), T("9"))>>) EXCEPT !.fd = fd], Lv0>>}
+      D(fd2) == {[Lv0 EXCEPT !.fd = fd2], [Rg(<<P2(c1, T("50"))>>) EXCEPT !.fd = fd2], WithDef([Lv0 EXCEPT !.fd = fd2], T("2.5")), WithDef([Lv0 EXCEPT !.fd = fd2], T("2.125"))}
+  IN UNION {UNION {{Chain("decimal64", b \o <<d>>) : b \in B(fd), d \in D(fd2)} \cup {Chain("decimal64", b \o <<d, Lv0>>) : b \in B(fd), d \in D(fd2)}
+                   \cup {Chain("decimal64", b \o <<d, Rg(<<P2(c2, c5)>>)>>) : b \in B(fd), d \in D(fd2)}
+                   : fd2 \in {1, 2, 3, 4, 18}} : fd \in {1, 2, 3}}
 \* ------------------------------------------------------------------ family table
 \* the chains of an exhaustive family (group = fam \div 1000)
 ChainsOf(fam, maxd) ==
@@ -633,7 +645,7 @@ ChainsOf(fam, maxd) ==
     [] g = 6 -> (CASE r = 1 -> PatFam(maxd) [] r = 2 -> MixFam [] OTHER -> StrDefFam)
     [] g = 7 -> (CASE r = 1 -> KindFam [] r = 2 -> OtherDefFam [] OTHER -> LayoutFam)
     [] g = 8 -> (CASE r \in 1..8 -> DirectIntFam(r) [] r \in 11..16 -> DirectDecFam(r - 10) [] r = 20 -> DirectStrFam [] r = 21 -> DirectOtherFam [] OTHER -> MsgFam)
-    [] g = 12 -> (CASE r < 10 -> HugeGapFam(r) [] r = 10 -> HugeLenFam [] r \in 21..28 -> LimitIntFam(r - 20) [] r = 30 -> LimitLenFam
+    [] g = 12 -> (CASE r < 10 -> HugeGapFam(r) [] r = 10 -> HugeLenFam [] r \in 21..28 -> LimitIntFam(r - 20) [] r = 30 -> LimitLenFam [] r = 50 -> FdRefFam
                     [] r \in 41..46 -> LimitDecFam(r - 40) [] r \in 101..199 -> DefNarrowFam(r - 100) [] OTHER -> DefProbeFam(r - 200))
     [] g = 13 -> BigFam(r)
     [] OTHER -> {}
